@@ -291,6 +291,13 @@ def gen_history(rng, cfg, n, direct_p=0.03, bad_p=0.08):
     for _ in range(rng.randrange(0, 4) if rng.random() < direct_p * 10 else 0):
         nb = rng.choice([8, 16, 32])
         ops.append([1, nb, rng.choice(hot) + rng.randrange(0, 4 - nb // 8 + 1), rng.getrandbits(nb), 1])
+    if rng.random() < 0.12:
+        # a QUIET first life: nothing but uncounted reads (string scans, inspection reads), then a reset —
+        # the second life must start from a cold cache although the counters never moved
+        for _ in range(rng.randrange(1, 7)):
+            nb = rng.choice([8, 16, 32])
+            ops.append([0, nb, rng.choice(hot) + rng.randrange(0, 4 - nb // 8 + 1), 0])
+        ops.append([2])
     for _ in range(n):
         a = rng.choice(hot) if rng.random() < 0.7 else rng.choice(bases) + 4 * rng.randrange(0, (1 << bb) + 1)
         nb = rng.choice([8, 16, 32])
